@@ -296,7 +296,11 @@ def check_family_cell(case):
         if p >= 2:
             want = np.minimum(cums["dense"], np.minimum(cums["sparse"], cums["intermediate"]))
         else:
-            want = cums["dense"]
+            # the intermediate penalty does not exist for p = 1 (it raises), so the right-hand side of the clause is undefined
+            # there: the library returns the dense penalty (CAPA's univariate penalty), the minimum over the two families that
+            # exist would be the sparse one. Either reading is accepted - the value must be one of the two.
+            want = cums["dense"] if np.all(np.abs(cums["combined"] - cums["dense"]) <= 1e-9 * (1 + np.abs(cums["dense"]))) \
+                else np.minimum(cums["dense"], cums["sparse"])
         if np.any(np.abs(cums["combined"] - want) > 1e-9 * (1 + np.abs(want))):
             j = int(np.argmax(np.abs(cums["combined"] - want)))
             raise Violation("combined penalty is not the pointwise minimum of the dense, sparse and intermediate penalties",
@@ -364,7 +368,7 @@ FACETS = [
     Facet(name="mvcapa_families", kind="enumerate", enumerate=family_cells, check=check_family_cell, exhaustive=True,
           rule=("grid n in {2,3,5,10,17,100,1000,12345,100000} x p in 1..12 and {16,20,24,26,28,30,31,32,33,40,64} x k in {1,2,3,5} x scale in {0,.5,1,2.5} x families "
                 "dense/sparse/intermediate/combined: shape, non-negativity, monotone cumulative penalty, proportionality, closed "
-                "forms of dense and sparse, combined == pointwise minimum (p>=2) / dense (p=1); exhaustive in both tiers"),
+                "forms of dense and sparse, combined == pointwise minimum (p>=2) / dense or min(dense, sparse) for p=1, where the intermediate penalty does not exist; exhaustive in both tiers"),
           shards_quick=8, shards_thorough=8, max_samples=2),
     Facet(name="pelt_penalty_monotone", check=check_monotone, strategy=monotone_cases,
           rule=("PELT on structured data at two penalty scales s1 < s2 (difference above the rounding bound): number of changepoints "
